@@ -176,6 +176,40 @@ def _g(node):
     return out
 
 
+def r5_no_shared_state(cx):
+    """'The same content and configuration in a fresh cleaner gives the same output': whatever a stage learns while cleaning lives on the instance.
+    A mutable object bound in the class body and modified through self is one object for every Cleaner of the process."""
+    cx.rule("C10.R5", "no stage keeps mutable state on its class (a fresh cleaner starts from nothing)", floor=7)
+    stages = [("insights.cleaner.keyword", "Keyword"), ("insights.cleaner.password", "Password"), ("insights.cleaner.ip", "IPv4"), ("insights.cleaner.ip", "IPv6"),
+              ("insights.cleaner.hostname", "Hostname"), ("insights.cleaner.mac", "Mac"), ("insights.cleaner.pattern", "Pattern"), (CL, "Cleaner")]
+    MUT = ("add", "append", "extend", "update", "insert", "pop", "remove", "discard", "clear", "setdefault", "popitem", "sort", "reverse")
+    for mn, cn in stages:
+        m = cx.repo.module(mn)
+        c = m.cls(cn, "C10.R5")
+        shared = {}
+        for st in c.body:
+            if isinstance(st, ast.Assign) and len(st.targets) == 1 and isinstance(st.targets[0], ast.Name):
+                v = st.value
+                if isinstance(v, (ast.List, ast.Dict, ast.Set, ast.ListComp, ast.DictComp, ast.SetComp)) or (isinstance(v, ast.Call) and call_name(v) in ("set", "list", "dict", "OrderedDict", "defaultdict", "collections.defaultdict", "collections.OrderedDict", "deque")):
+                    shared[st.targets[0].id] = st
+        bad = []
+        for x in ast.walk(c):
+            if isinstance(x, ast.Call) and isinstance(x.func, ast.Attribute) and x.func.attr in MUT and isinstance(x.func.value, ast.Attribute) and U(x.func.value.value) in ("self", "cls", cn) and x.func.value.attr in shared:
+                # unless the instance rebinds the name first (self.X = ... in __init__), in which case self.X is the instance's own object
+                own = [a for a in ast.walk(c) if isinstance(a, ast.Attribute) and isinstance(a.ctx, ast.Store) and a.attr == x.func.value.attr and U(a.value) == "self"]
+                if not own:
+                    bad.append(x)
+            if isinstance(x, ast.Subscript) and isinstance(x.ctx, (ast.Store, ast.Del)) and isinstance(x.value, ast.Attribute) and U(x.value.value) in ("self", "cls", cn) and x.value.attr in shared:
+                own = [a for a in ast.walk(c) if isinstance(a, ast.Attribute) and isinstance(a.ctx, ast.Store) and a.attr == x.value.attr and U(a.value) == "self"]
+                if not own:
+                    bad.append(x)
+        cx.require(not bad, bad[0] if bad else c, "%s modifies no mutable object that is bound in its class body" % cn,
+                   construct=short(stmt_of(bad[0]), 90) if bad else "class-level mutables: %s" % (sorted(shared) or "none"))
+    # the writer puts exactly one separator between two cleaned lines (C11.R9 re-checked): a missing one glues two lines into one
+    from . import c11
+    cx.borrow(c11.r9_line_separator, "C11.R9", "C10.R2", "one output line per kept input line, original order restored")
+
+
 def run(cx):
     cx.extra["explanation"] = ("C10: set-type lint over Cleaner.clean_content and every pipeline stage (hash-ordered iteration into the parser list or into successive rewrites of the line), "
                                "fixed stage order, one-to-one / reverse-once shape of the line loop, empty-collapse chain up to ContentProvider.write.")
@@ -183,6 +217,7 @@ def run(cx):
     cx.guard(r1_hash_free)
     cx.guard(r2_one_to_one)
     cx.guard(r3_empty)
+    cx.guard(r5_no_shared_state)
     # a function of content and configuration only: cleaning must not write into its own configuration (the allow-list budgets
     # live in a table shared through the filter cache; consuming them in place makes the next call see a different configuration)
     from . import c07
